@@ -9,7 +9,12 @@
 //!     evaluated after every commit/rollback) or on 2-4 baton-scheduled threads
 //!     (switches at operation boundaries and at the `chain.commit.*` hook sites
 //!     inside `TensorChain::commit`); conflicting/orthogonal key sets and delta
-//!     embeddings, auto-merge on and off.
+//!     embeddings, auto-merge on and off. The chain's codebook / transition
+//!     validation configuration is part of the case (`Validation`): the default
+//!     empty codebook (the validator is never consulted) or a small
+//!     `GlobalCodebook` built from the same directions the workspaces' delta
+//!     embeddings use, so that auto-merge's `validate_transition` accepts some
+//!     merged transitions and vetoes others.
 //! (b) `Kind::Tamper`: a sequential program, then ONE storage fault on the
 //!     stored block records (one field of one block altered, one record
 //!     removed, two swapped, one forged and re-signed), then `verify()`.
@@ -32,7 +37,9 @@ use tensor_chain::network::{MemoryTransport, Transport};
 use tensor_chain::raft::{RaftConfig, RaftNode};
 use tensor_chain::signing::{Identity, ValidatorRegistry};
 use tensor_chain::transaction::{TransactionState, TransactionWorkspace};
-use tensor_chain::{compute_state_root, Chain, ChainConfig, ChainError, TensorChain, TensorStateMachine};
+use tensor_chain::{
+    compute_state_root, Chain, ChainConfig, ChainError, CodebookConfig, GlobalCodebook, TensorChain, TensorStateMachine, ValidationConfig,
+};
 use tensor_store::{ScalarValue, SparseVector, TensorStore, TensorValue};
 
 #[derive(Serialize, Deserialize, Clone, Debug, PartialEq)]
@@ -74,10 +81,78 @@ pub enum Kind {
     Replay { skew_ms: u16, own_id: bool },
 }
 
+/// The chain's codebook and transition-validation configuration
+/// (`TensorChain::with_codebook`). `commit` consults it in two places: auto-merge
+/// asks `TransitionValidator::validate_transition(own delta -> own delta + sum of
+/// the candidates merged so far + this candidate)` before it accepts a merge
+/// candidate (only when the global codebook is non-empty), and the block's
+/// `quantized_codes` come from `GlobalCodebook::quantize`.
+#[derive(Serialize, Deserialize, Clone, Debug, PartialEq)]
+pub struct Validation {
+    /// centroids of the global codebook: each is the sum of the delta embeddings
+    /// `delta_of(dir)` of the listed directions. No (non-zero) centroid = the
+    /// default empty codebook ("learning mode", validation is skipped).
+    pub centroids: Vec<Vec<u8>>,
+    /// `ValidationConfig::state_threshold`, percent (default 80)
+    pub state_pct: u8,
+    /// `ValidationConfig::max_transition_magnitude`, tenths (default 10)
+    pub max_mag_x10: u8,
+    /// `ValidationConfig::strict_transition` = !lenient
+    pub lenient: bool,
+    /// the codebook has half the dimension of the workspaces' embeddings (every
+    /// quantization fails: similarity 0)
+    pub short_dim: bool,
+}
+
+impl Default for Validation {
+    fn default() -> Self {
+        Validation { centroids: Vec::new(), state_pct: 80, max_mag_x10: 10, lenient: false, short_dim: false }
+    }
+}
+
+impl Validation {
+    fn centroid_vectors(&self) -> Vec<Vec<f32>> {
+        let dim = if self.short_dim { DIM / 2 } else { DIM };
+        let mut out = Vec::new();
+        for c in &self.centroids {
+            let mut v = vec![0.0f32; DIM];
+            for d in c {
+                if let Some(e) = delta_of(*d) {
+                    for (a, b) in v.iter_mut().zip(e.iter()) {
+                        *a += *b;
+                    }
+                }
+            }
+            v.truncate(dim);
+            if v.iter().any(|x| *x != 0.0) {
+                out.push(v);
+            }
+        }
+        out
+    }
+}
+
 #[derive(Serialize, Deserialize, Clone, Debug)]
 pub struct Case {
     pub kind: Kind,
     pub auto_merge: bool,
+    /// codebook / transition validation of the chain (absent in older replay
+    /// files: the default empty codebook)
+    #[serde(default)]
+    pub validation: Validation,
+    /// private clock of the run (0 / absent in older replay files: off). The run's
+    /// wall clock starts this many ms after the kernel's common start and moves 1 ms
+    /// before every `begin`. Reason: `tensor_chain::tx_id::generate_tx_id` keeps its
+    /// same-millisecond overflow counter in process-global statics, which the other
+    /// worker threads of a batch (all on the same simulated epoch) race on; two ids
+    /// drawn in the same millisecond therefore differ from execution to execution,
+    /// with them the iteration order of `TransactionManager::active` and the order in
+    /// which auto-merge examines candidates of equal similarity - and, with a
+    /// validator that accepts one merged transition and vetoes the next, the outcome.
+    /// With every id of the run drawn in a millisecond of its own that no other run
+    /// uses, the counter is never consulted.
+    #[serde(default)]
+    pub epoch_ms: u64,
     /// register a second validator identity with the chain
     pub second_validator: bool,
     /// one program per thread; one thread = sequential
@@ -111,7 +186,8 @@ fn user_key(k: u8) -> String {
 }
 
 /// Delta embeddings: 1..=3 pairwise orthogonal one-hot vectors (equal index =
-/// cosine 1), 4 and 5 overlap with 1 (structural conflict / ambiguous).
+/// cosine 1), 4 and 5 overlap with 1 (structural conflict / ambiguous). All
+/// non-zero coordinates are below DIM / 2 (see `Validation::short_dim`).
 fn delta_of(dir: u8) -> Option<Vec<f32>> {
     let mut v = vec![0.0f32; DIM];
     match dir % 6 {
@@ -174,13 +250,26 @@ struct WsRec {
     commit_ok_empty: bool,
     commit_err: Option<String>,
     rollback_ok: bool,
+    /// the workspace went from Active to Failed during ANOTHER workspace's commit
+    /// call, without a commit call of its own having failed: auto-merge took it as
+    /// a candidate and gave it up again (validator veto, or the merging commit failed)
+    failed_by_other: bool,
 }
 
 struct World {
     ctx: Arc<RunCtx>,
     chain: TensorChain,
     recs: Mutex<Vec<WsRec>>,
-    in_commit: Mutex<Vec<bool>>,
+    /// per thread: the record whose commit call is in progress
+    in_commit: Mutex<Vec<Option<usize>>>,
+    /// the chain was built with a non-empty global codebook
+    codebook: bool,
+    /// some commit call returned an error that `commit` raises after auto-merge took
+    /// its candidates (anything but a conflict or a wrong workspace state): such a
+    /// commit marks the workspaces it merged Failed as well
+    late_commit_failure: Mutex<bool>,
+    /// see `Case::epoch_ms`
+    private_clock: bool,
     /// simulated wall clock (ns) at which each successful commit started
     commit_wall: Mutex<Vec<u64>>,
     concurrent: bool,
@@ -193,6 +282,10 @@ impl World {
             Op::Begin { ws, dir } => {
                 if slots.contains_key(ws) {
                     return;
+                }
+                if self.private_clock {
+                    // no schedule point between here and the id generation inside begin
+                    ctx.advance_ms(1);
                 }
                 match self.chain.begin() {
                     Ok(w) => {
@@ -210,6 +303,7 @@ impl World {
                             commit_ok_empty: false,
                             commit_err: None,
                             rollback_ok: false,
+                            failed_by_other: false,
                         });
                         drop(recs);
                         ctx.event(&format!("t{t} begin ws{ws} dir{}", dir % 6));
@@ -245,17 +339,36 @@ impl World {
                 };
                 {
                     let mut ic = self.in_commit.lock().unwrap();
-                    if ic.iter().enumerate().any(|(j, b)| j != t && *b) {
+                    if ic.iter().enumerate().any(|(j, b)| j != t && b.is_some()) {
                         ctx.probe("concurrent_commits_overlapped");
                     }
-                    ic[t] = true;
+                    ic[t] = Some(i);
                 }
                 let wall = ctx.lock().wall_ns;
                 ctx.event(&format!("t{t} ws{ws} commit ..."));
                 let r = self.chain.commit(&w);
-                {
+                let busy: Vec<usize> = {
                     let mut ic = self.in_commit.lock().unwrap();
-                    ic[t] = false;
+                    ic[t] = None;
+                    ic.iter().flatten().copied().collect()
+                };
+                if let Err(e) = &r {
+                    let early = matches!(e, ChainError::ConflictDetected { .. })
+                        || matches!(e, ChainError::TransactionFailed(m) if m.starts_with("cannot commit transaction in state"));
+                    if !early {
+                        *self.late_commit_failure.lock().unwrap() = true;
+                    }
+                }
+                if let Err(e) = &r {
+                    // "commit rejected by the validator": an error of the validation family
+                    // that is not Chain::append's height/hash check
+                    let k = err_kind(e);
+                    let validator = matches!(e, ChainError::InvalidTransition(_) | ChainError::CodebookError(_) | ChainError::MergeFailed(_))
+                        || (k.starts_with("ValidationFailed(") && !k.starts_with("ValidationFailed(expected height") && !k.starts_with("ValidationFailed(height does not follow"));
+                    if validator {
+                        ctx.probe("commit_rejected_by_validator");
+                        ctx.fp("commit-rejected");
+                    }
                 }
                 let mut recs = self.recs.lock().unwrap();
                 match &r {
@@ -275,6 +388,14 @@ impl World {
                         }
                     },
                 }
+                // the call just finished (any thread's) may have given up merge candidates; a
+                // workspace whose own commit call is still in progress is looked at when that
+                // call returns
+                for j in 0..recs.len() {
+                    if j == i || !busy.contains(&j) {
+                        self.note_failed_by_other(&mut recs, j, &format!("seen after the commit call of ws{ws}"));
+                    }
+                }
                 drop(recs);
                 ctx.event(&format!(
                     "t{t} ws{ws} commit -> {} (height now {})",
@@ -287,7 +408,12 @@ impl World {
             },
             Op::Rollback { ws } => {
                 let Some(&i) = slots.get(ws) else { return };
-                let w = self.recs.lock().unwrap()[i].ws.clone();
+                let w = {
+                    let mut recs = self.recs.lock().unwrap();
+                    // rollback turns Failed into RolledBack: look before
+                    self.note_failed_by_other(&mut recs, i, "seen before its rollback");
+                    recs[i].ws.clone()
+                };
                 let r = self.chain.rollback(&w);
                 if r.is_ok() {
                     self.recs.lock().unwrap()[i].rollback_ok = true;
@@ -307,6 +433,31 @@ impl World {
         }
     }
 
+    /// Workspace `j` is Failed although no commit call of its own has failed (its own
+    /// call can only have told it "cannot commit transaction in state Failed"): some
+    /// other workspace's commit took it as an auto-merge candidate and gave it up.
+    fn note_failed_by_other(&self, recs: &mut [WsRec], j: usize, when: &str) {
+        let ctx = &self.ctx;
+        let r = &mut recs[j];
+        let own_failure = r.commit_err.as_deref().is_some_and(|e| !e.starts_with("TransactionFailed(cannot commit transaction in state"));
+        if r.failed_by_other || own_failure || r.ws.state() != TransactionState::Failed {
+            return;
+        }
+        r.failed_by_other = true;
+        ctx.event(&format!("  ws{} is Failed without a failed commit call of its own ({when})", r.slot));
+        if self.codebook && !*self.late_commit_failure.lock().unwrap() {
+            // "merge vetoed by the validator": no commit failed after it had taken its merge
+            // candidates (that fails the merged workspaces too), so the veto is the only way
+            ctx.probe("merge_vetoed_by_validator");
+            ctx.fp("veto");
+            if !r.ops.is_empty() {
+                ctx.probe("merge_vetoed_candidate_had_writes");
+            }
+        } else {
+            ctx.probe("merge_candidate_failed_otherwise");
+        }
+    }
+
     /// root-cause shape that goes into violation classes: execution mode and
     /// which risky events happened in the run so far
     fn shape(&self) -> String {
@@ -319,6 +470,9 @@ impl World {
             r.commit_err.as_deref().is_some_and(|e| e.starts_with("ValidationFailed(expected height") || e == "InvalidHash")
         }) {
             s.push_str("+append-lost");
+        }
+        if recs.iter().any(|r| r.failed_by_other) {
+            s.push_str("+merge-candidate-failed");
         }
         s.push(']');
         s
@@ -413,6 +567,12 @@ impl World {
             }
             if used.len() > 1 {
                 self.ctx.probe("auto_merge_merged");
+                if self.codebook {
+                    self.ctx.probe("merge_accepted_by_validator");
+                }
+            }
+            if !b.header.quantized_codes.is_empty() {
+                self.ctx.probe("block_carries_quantized_code");
             }
             for i in used {
                 placed.insert(i, h as u64);
@@ -913,6 +1073,39 @@ impl Scenario for C16 {
         let disjoint_keys = rng.chance(1, 3);
         let same_dir = rng.chance(1, 4);
         let zero_dirs = rng.chance(1, 4);
+        // codebook / validation configuration: half of the cases keep the default empty
+        // codebook; the others get 1-3 centroids over the directions the workspaces use
+        let validation = if rng.chance(1, 2) {
+            Validation::default()
+        } else {
+            let mut centroids: Vec<Vec<u8>> = Vec::new();
+            if rng.chance(1, 2) {
+                // coherent: a direction and its sum with a second one (a commit in the first
+                // direction may absorb a candidate in the second, nothing else)
+                let a = rng.range(1, 3) as u8;
+                let b = 1 + (a + rng.below(2) as u8) % 3;
+                centroids.push(vec![a]);
+                centroids.push(vec![a, b]);
+            }
+            for _ in 0..rng.range(if centroids.is_empty() { 1 } else { 0 }, 2) {
+                centroids.push(match rng.below(8) {
+                    0..=3 => vec![rng.range(1, 3) as u8],
+                    4 => vec![rng.range(4, 5) as u8],
+                    5 | 6 => {
+                        let a = rng.range(1, 3) as u8;
+                        vec![a, 1 + (a + rng.below(2) as u8) % 3]
+                    },
+                    _ => vec![1, 2, 3],
+                });
+            }
+            Validation {
+                centroids,
+                state_pct: *rng.pick(&[80u8, 80, 80, 80, 60, 95]),
+                max_mag_x10: *rng.pick(&[10u8, 10, 10, 10, 5, 30]),
+                lenient: rng.chance(1, 6),
+                short_dim: rng.chance(1, 12),
+            }
+        };
         let mut u = 0u32;
         let mut slot = 0u8;
         let mut threads = Vec::new();
@@ -984,7 +1177,8 @@ impl Scenario for C16 {
         };
         let stick = *rng.pick(&[0u64, 50, 80, 92]);
         let schedule = if nthreads > 1 { sched::gen_schedule(rng, 30 + 25 * nthreads, stick) } else { Vec::new() };
-        Case { kind, auto_merge: rng.chance(1, 2), second_validator: rng.chance(1, 2), threads, schedule }
+        let epoch_ms = 1 + rng.below(1 << 41);
+        Case { kind, auto_merge: rng.chance(1, 2), validation, epoch_ms, second_validator: rng.chance(1, 2), threads, schedule }
     }
 
     fn run(&self, case: &Case, ctx: &Arc<RunCtx>) -> RunOut {
@@ -992,10 +1186,33 @@ impl Scenario for C16 {
         crate::sched::set_allowed_sites(&["c16.", "chain.", "tensor_chain."]);
         let mut out = RunOut::default();
         let concurrent = case.threads.len() > 1;
+        if case.epoch_ms != 0 {
+            ctx.step_wall_ms((case.epoch_ms % (1 << 42)) as i64);
+        }
         let t_init = ctx.lock().wall_ns;
         let store = TensorStore::new();
         let cfg = ChainConfig::new("n0").with_auto_merge(case.auto_merge);
-        let chain = TensorChain::with_identity(store, cfg, sim_identity(ctx));
+        let centroids = case.validation.centroid_vectors();
+        let codebook = !centroids.is_empty();
+        let chain = if codebook {
+            // the only public constructor that takes a codebook; it generates its own
+            // identity (the kernel serves that getrandom from the run's random stream)
+            let v = &case.validation;
+            TensorChain::with_codebook(
+                store,
+                cfg,
+                GlobalCodebook::from_centroids(centroids),
+                CodebookConfig::default(),
+                ValidationConfig {
+                    state_threshold: f32::from(v.state_pct) / 100.0,
+                    max_transition_magnitude: f32::from(v.max_mag_x10) / 10.0,
+                    strict_transition: !v.lenient,
+                    codebook_config: CodebookConfig::default(),
+                },
+            )
+        } else {
+            TensorChain::with_identity(store, cfg, sim_identity(ctx))
+        };
         let second = if case.second_validator {
             let id = sim_identity(ctx);
             chain.register_validator(&id);
@@ -1008,20 +1225,36 @@ impl Scenario for C16 {
             return out;
         }
         ctx.fp(&format!(
-            "{}:{}:am{}",
+            "{}:{}:am{}:cb{}",
             match &case.kind {
                 Kind::Commits => "commits",
                 Kind::Tamper(_) => "tamper",
                 Kind::Replay { .. } => "replay",
             },
             case.threads.len(),
-            case.auto_merge
+            case.auto_merge,
+            codebook
         ));
+        if codebook {
+            let v = &case.validation;
+            ctx.event(&format!(
+                "codebook centroids {:?} (sums of delta directions){} state_threshold {}% max_transition_magnitude {}/10 strict {}",
+                v.centroids,
+                if v.short_dim { " half dimension" } else { "" },
+                v.state_pct,
+                v.max_mag_x10,
+                !v.lenient
+            ));
+            ctx.probe("chain_with_codebook");
+        }
         let world = Arc::new(World {
             ctx: ctx.clone(),
             chain,
             recs: Mutex::new(Vec::new()),
-            in_commit: Mutex::new(vec![false; case.threads.len().max(1)]),
+            in_commit: Mutex::new(vec![None; case.threads.len().max(1)]),
+            codebook,
+            late_commit_failure: Mutex::new(false),
+            private_clock: case.epoch_ms != 0,
             commit_wall: Mutex::new(Vec::new()),
             concurrent,
         });
@@ -1173,6 +1406,29 @@ impl Scenario for C16 {
             c.second_validator = false;
             v.push(c);
         }
+        if case.validation != Validation::default() {
+            let mut c = case.clone();
+            c.validation = Validation::default();
+            v.push(c);
+            let d = Validation::default();
+            let mut c = case.clone();
+            c.validation = Validation { centroids: case.validation.centroids.clone(), ..d };
+            if c.validation != case.validation {
+                v.push(c);
+            }
+            for i in 0..case.validation.centroids.len() {
+                let mut c = case.clone();
+                c.validation.centroids.remove(i);
+                v.push(c);
+                if case.validation.centroids[i].len() > 1 {
+                    for j in 0..case.validation.centroids[i].len() {
+                        let mut c = case.clone();
+                        c.validation.centroids[i].remove(j);
+                        v.push(c);
+                    }
+                }
+            }
+        }
         for (t, prog) in case.threads.iter().enumerate() {
             for (i, op) in prog.iter().enumerate() {
                 if let Op::Begin { ws, dir } = op {
@@ -1207,17 +1463,20 @@ impl Scenario for C16 {
             "concurrent_commits_overlapped",
             "preempted_inside_commit",
             "auto_merge_merged",
+            "merge_vetoed_by_validator",
+            "merge_vetoed_candidate_had_writes",
+            "merge_accepted_by_validator",
             "tamper_detected_by_signature",
             "tamper_detected_by_hash_link",
             "replay_blocks_accepted",
         ]
     }
     fn rule(&self) -> String {
-        "A case is one program of begin/put/delete/commit/rollback/advance-time operations per thread (1 thread: sequential over 2-4 interleaved workspaces, oracle evaluated after every commit and rollback; 2-4 threads: baton-scheduled with an explicit schedule, switches at operation boundaries and at 8 hook sites inside TensorChain::commit, oracle evaluated after quiescence), auto-merge on/off, per-workspace delta embeddings (none / orthogonal / identical / overlapping) and shared or disjoint key sets; Tamper cases add one storage fault on the stored block records (14 single-field mutations, removal, swap, forgery re-signed by a non-validator or by another validator) followed by verify(); Replay cases feed the committed blocks to two TensorStateMachine replicas on their own OS threads. Non-trivial: at least one block was committed and, for multi-thread cases, two commit calls overlapped in time. Distinct: hash of (kind, thread count, auto-merge, operation kinds in order, sites at which threads were preempted, switch count, height, tamper kind).".into()
+        "A case is one program of begin/put/delete/commit/rollback/advance-time operations per thread (1 thread: sequential over 2-4 interleaved workspaces, oracle evaluated after every commit and rollback; 2-4 threads: baton-scheduled with an explicit schedule, switches at operation boundaries and at 8 hook sites inside TensorChain::commit, oracle evaluated after quiescence), auto-merge on/off, the chain's codebook / transition-validation configuration (default empty codebook, or TensorChain::with_codebook with 1-3 centroids that are sums of the workspaces' delta directions, state threshold 0.6/0.8/0.95, maximum transition magnitude 0.5/1/3, strict or lenient, full or half dimension: auto-merge's validator accepts some merged transitions and vetoes others), per-workspace delta embeddings (none / orthogonal / identical / overlapping) and shared or disjoint key sets; Tamper cases add one storage fault on the stored block records (14 single-field mutations, removal, swap, forgery re-signed by a non-validator or by another validator) followed by verify(); Replay cases feed the committed blocks to two TensorStateMachine replicas on their own OS threads. Non-trivial: at least one block was committed and, for multi-thread cases, two commit calls overlapped in time. Distinct: hash of (kind, thread count, auto-merge, codebook empty or not, validator vetoes, operation kinds in order, sites at which threads were preempted, switch count, height, tamper kind).".into()
     }
     fn components(&self) -> Value {
         json!({
-            "real": ["tensor_chain::TensorChain (begin, commit incl. conflict detection and auto-merge, rollback, verify, get_block, height)", "tensor_chain::Chain (append, verify_chain, initialize)", "TransactionWorkspace / TransactionManager", "Block / BlockHeader hashing, tx merkle root, Ed25519 signing and ValidatorRegistry", "TensorStateMachine::apply_block + compute_state_root (replicas)", "GraphEngine (chain links)", "TensorStore incl. snapshot_bytes/restore_from_bytes"],
+            "real": ["tensor_chain::TensorChain (begin, commit incl. conflict detection and auto-merge, rollback, verify, get_block, height)", "tensor_chain::Chain (append, verify_chain, initialize)", "TransactionWorkspace / TransactionManager", "GlobalCodebook / CodebookManager / TransitionValidator (consulted by auto-merge and for quantized_codes; non-empty codebook in half of the cases)", "Block / BlockHeader hashing, tx merkle root, Ed25519 signing and ValidatorRegistry", "TensorStateMachine::apply_block + compute_state_root (replicas)", "GraphEngine (chain links)", "TensorStore incl. snapshot_bytes/restore_from_bytes"],
             "simulated": ["thread interleaving (baton scheduler, schedule in the case)", "wall clock (block, workspace and graph-node timestamps)", "OS randomness (Ed25519 keys, HashMap seeds per thread)", "storage faults on block records (direct store writes)"],
             "stub": ["RaftNode inside TensorStateMachine is constructed but never driven (apply_block only)"]
         })
@@ -1227,6 +1486,8 @@ impl Scenario for C16 {
             "tampering is applied to the store underneath a live TensorChain instance (its in-memory height and tip hash are those of the untampered chain); re-opening the chain after tampering is not judged".into(),
             "a stored block's fields are the fields of `Block` (header fields, transactions, signatures); the auxiliary record fields _height/_hash/_timestamp next to the serialized block are not judged".into(),
             "a commit of an empty workspace returns Ok without a block and is not counted".into(),
+            "a merge candidate that auto-merge gives up (validator veto) ends in state Failed without its owner having done anything; the property only asks that chain and store hold none of its writes, so that state is not judged".into(),
+            "TensorChain::commit has no path on which the validator rejects the committing workspace itself (it only vetoes merge candidates); the probe commit_rejected_by_validator watches for errors of the validation family and stays at 0 on this tree".into(),
             "a workspace merged into another commit counts as committed when its state() is Committed (its owner's commit call returns an error by design)".into(),
             "replicas are TensorStateMachine over a Chain sharing the replica's store, created with the origin's node id and, in the baseline, replaying at the same simulated instants as the origin committed".into(),
         ]
